@@ -200,9 +200,12 @@ Print Assumptions C09_printn_zero_fixed.
    (SimInv; true of the state after start(), FlushOnVT.sim_start); and [termop_okb] of every emitted operation:
    pens in range and every printed code point printable ASCII 0x20..0x7e -- the one width class the VT model
    (one byte, one cell) and the library (cpw = 1) agree on; Latin-1, box-drawing glyphs (line cells), combining
-   and fullwidth characters are outside VT.v, which has no UTF-8 decoder.  The render buffer's pens carry four
-   attributes (fg, bg, bold, underline), so reverse video -- and with it the spaces strategy of erasech and the
-   recorded right-edge trigger class -- cannot occur in a flush's operations: set-pen resets it. *)
+   and fullwidth characters are outside VT.v, which has no UTF-8 decoder.  The render buffer's pens are C19's
+   attribute maps (ten attributes, RGB secondaries); [termop_okb] bounds every set pen to fg / bg by palette
+   index -1..255 without RGB secondary, bold, underline style 0..3, and the other six attributes (italic,
+   reverse, strike, altfont, blink, sizepos) ABSENT.  With reverse video excluded that way, only the ECH
+   strategy of erasech is exercised and the recorded right-edge trigger class cannot arise (set-pen resets
+   reverse); flushes with reverse-video pens (xterm_payload's blanks instead of ECH) are outside this theorem. *)
 Theorem C04_C09_flush_on_vt : forall L C prog s r colon rgb8 v0 t0 l0 pn0 T0,
   0 <= L -> 0 <= C -> Forall Tickit.RBFlushReach.op_ok prog ->
   Tickit.RBDefs.run (Tickit.RBDefs.rb_new L C) prog = Tickit.RBDefs.Ok (s, r) ->
